@@ -295,6 +295,77 @@ func regStd() {
 		return one(st, &TupleV{V: []Value{App("atoi", SInt, s), err}})
 	})
 
+	// ---- strings.Builder ----------------------------------------------------------
+	// A builder that lives in a local cell (new(strings.Builder), var sb strings.Builder) keeps
+	// its text as a string term in the struct's buf field; every write appends.
+	builderGet := func(ex *Executor, st *State, recv Value) (*PtrV, *Term) {
+		p, ok := recv.(*PtrV)
+		if !ok {
+			return nil, nil
+		}
+		sv, ok := ex.load(st, p, nil).(*StructV)
+		if !ok || len(sv.F) != 2 {
+			return nil, nil
+		}
+		if b, ok := sv.F[1].(*BytesV); ok {
+			return p, b.T
+		}
+		return nil, nil
+	}
+	builderAppend := func(name, doc string, piece func(ex *Executor, st *State, c *callCtx) (*Term, Value)) {
+		regEnv("(*strings.Builder)."+name, doc, func(ex *Executor, st *State, c *callCtx) []callResult {
+			add, ret := piece(ex, st, c)
+			if p, cur := builderGet(ex, st, c.Args[0]); p != nil && add != nil {
+				sv := ex.load(st, p, nil).(*StructV)
+				nv := &StructV{T: sv.T, F: []Value{sv.F[0], &BytesV{T: StrCat(cur, add)}}}
+				ex.store(st, p, nv)
+			} else {
+				st.Note("strings.Builder.%s on %s", name, showValue(c.Args[0]))
+			}
+			return one(st, ret)
+		})
+	}
+	builderAppend("WriteByte", "sb.WriteByte(c): appends the one byte c; the error is always nil", func(ex *Executor, st *State, c *callCtx) (*Term, Value) {
+		b := ex.asTerm(st, c.Args[1])
+		ch := Builtin("str.from_code", SStr, b)
+		st.Fact(Implies(And(Ge(b, IntLit(0)), Lt(b, IntLit(256))), Eq(StrLen(ch), IntLit(1))))
+		return ch, IntLit(0)
+	})
+	builderAppend("WriteString", "sb.WriteString(s): appends s; returns (len(s), nil)", func(ex *Executor, st *State, c *callCtx) (*Term, Value) {
+		s := ex.asTerm(st, c.Args[1])
+		return s, &TupleV{V: []Value{StrLen(s), IntLit(0)}}
+	})
+	builderAppend("Write", "sb.Write(p): appends p; returns (len(p), nil)", func(ex *Executor, st *State, c *callCtx) (*Term, Value) {
+		s := ex.bytesTerm(st, c.Args[1])
+		if s == nil {
+			return nil, &TupleV{V: []Value{ex.Fresh("n", SInt), IntLit(0)}}
+		}
+		return s, &TupleV{V: []Value{StrLen(s), IntLit(0)}}
+	})
+	builderAppend("WriteRune", "sb.WriteRune(r): appends the UTF-8 encoding of r (1 to 4 bytes, uninterpreted); the error is always nil", func(ex *Executor, st *State, c *callCtx) (*Term, Value) {
+		enc := App("utf8enc", SStr, ex.asTerm(st, c.Args[1]))
+		st.Fact(And(Ge(StrLen(enc), IntLit(1)), Le(StrLen(enc), IntLit(4))))
+		return enc, &TupleV{V: []Value{StrLen(enc), IntLit(0)}}
+	})
+	regEnv("(*strings.Builder).String", "sb.String(): the text appended so far", func(ex *Executor, st *State, c *callCtx) []callResult {
+		if _, cur := builderGet(ex, st, c.Args[0]); cur != nil {
+			return one(st, cur)
+		}
+		st.Note("strings.Builder.String on %s", showValue(c.Args[0]))
+		return one(st, ex.Fresh("sbtext", SStr))
+	})
+	regEnv("(*strings.Builder).Len", "sb.Len(): length of the text appended so far", func(ex *Executor, st *State, c *callCtx) []callResult {
+		if _, cur := builderGet(ex, st, c.Args[0]); cur != nil {
+			return one(st, StrLen(cur))
+		}
+		n := ex.Fresh("sblen", SInt)
+		st.Fact(Ge(n, IntLit(0)))
+		return one(st, n)
+	})
+	regEnv("(*strings.Builder).Grow", "sb.Grow(n): capacity only, the text is unchanged", func(ex *Executor, st *State, c *callCtx) []callResult {
+		return one(st, nil)
+	})
+
 	// ---- crypto -----------------------------------------------------------------
 	regEnv("crypto/sha512.Sum512", "sha512.Sum512: total, 64-byte output, injective (collision resistance, cryptographic assumption), inverse function sha_inv exists only as a proof device", func(ex *Executor, st *State, c *callCtx) []callResult {
 		in := ex.bytesTerm(st, c.Args[0])
@@ -315,6 +386,33 @@ func regStd() {
 		st.Fact(App("b64ok!"+enc, SBool, out))
 		st.Fact(Eq(Eq(StrLen(out), IntLit(0)), Eq(StrLen(in), IntLit(0))))
 		return one(st, out)
+	})
+	// EncodedLen as encoding/base64 computes it: padded alphabets (n+2)/3*4, raw ones n/3*4 + (n%3*8+5)/6
+	Div := func(a, b *Term) *Term { return Builtin("div", SInt, a, b) }
+	Mod := func(a, b *Term) *Term { return Builtin("mod", SInt, a, b) }
+	b64Len := func(enc string, n *Term) *Term {
+		if strings.HasPrefix(enc, "raw") {
+			return Add(Mul(Div(n, IntLit(3)), IntLit(4)), Div(Add(Mul(Mod(n, IntLit(3)), IntLit(8)), IntLit(5)), IntLit(6)))
+		}
+		return Mul(Div(Add(n, IntLit(2)), IntLit(3)), IntLit(4))
+	}
+	regEnv("(*encoding/base64.Encoding).EncodedLen", "base64 EncodedLen(n): (n+2)/3*4 for the padded alphabets, n/3*4 + (n%3*8+5)/6 for the raw ones", func(ex *Executor, st *State, c *callCtx) []callResult {
+		return one(st, b64Len(ex.b64Name(st, c.Args[0]), ex.asTerm(st, c.Args[1])))
+	})
+	regEnv("(*encoding/base64.Encoding).Encode", "base64 Encode(dst, src): writes EncodeToString(src), EncodedLen(len(src)) bytes, at the start of dst; panics when dst is shorter", func(ex *Executor, st *State, c *callCtx) []callResult {
+		enc := ex.b64Name(st, c.Args[0])
+		in := ex.bytesTerm(st, c.Args[2])
+		out := App("b64enc!"+enc, SStr, in)
+		st.Fact(Eq(App("b64dec!"+enc, SStr, out), in))
+		st.Fact(App("b64ok!"+enc, SBool, out))
+		st.Fact(Eq(StrLen(out), b64Len(enc, StrLen(in))))
+		if b, ok := c.Args[1].(*BufV); ok {
+			ex.safetyQueue(st, Ge(Sub(b.Hi, b.Lo), StrLen(out)), "base64 Encode into a short buffer", c.Pos)
+			ex.bufWrite(st, b, IntLit(0), out)
+		} else {
+			st.Note("base64 Encode into %s", showValue(c.Args[1]))
+		}
+		return one(st, &TupleV{})
 	})
 	regEnv("(*encoding/base64.Encoding).DecodeString", "base64 DecodeString: err==nil <=> b64ok(s); result == b64dec(s); EncodeToString(dec) may differ from s (non-canonical spellings)", func(ex *Executor, st *State, c *callCtx) []callResult {
 		enc := ex.b64Name(st, c.Args[0])
